@@ -8,7 +8,10 @@ pub mod c04;
 pub mod c05;
 pub mod c06;
 pub mod c07;
+pub mod c08;
 pub mod c09;
+pub mod c10;
+pub mod c11;
 pub mod c13;
 pub mod c17;
 
@@ -38,7 +41,7 @@ impl PropSpec {
 }
 
 pub fn all() -> Vec<PropSpec> {
-    vec![c01::spec(), c02::spec(), c03::spec(), c04::spec(), c05::spec(), c06::spec(), c07::spec(), c09::spec(), c13::spec(), c17::spec()]
+    vec![c01::spec(), c02::spec(), c03::spec(), c04::spec(), c05::spec(), c06::spec(), c07::spec(), c08::spec(), c09::spec(), c10::spec(), c11::spec(), c13::spec(), c17::spec()]
 }
 
 pub fn find(id: &str) -> Option<PropSpec> {
